@@ -568,6 +568,11 @@ func (db *DB) SetDeviceCertChain(ctx context.Context, chain []*x509.Certificate)
 	if !ok {
 		return fdo.ErrInvalidSession
 	}
+	// device_info has no uniqueness constraint on session, so an earlier chain
+	// of the same session would otherwise keep being the one that is read
+	if err := remove(db.debugCtx(ctx), db.db, "device_info", map[string]any{"session": sessID}, nil); err != nil && !errors.Is(err, fdo.ErrNotFound) {
+		return fmt.Errorf("error replacing device certificate chain: %w", err)
+	}
 	if err := db.insert(ctx, "device_info", map[string]any{
 		"x509_chain": derEncode(chain),
 		"session":    sessID,
@@ -643,7 +648,7 @@ func (db *DB) SetIncompleteVoucherHeader(ctx context.Context, ovh *fdo.VoucherHe
 	return db.insert(ctx, "incomplete_vouchers", map[string]any{
 		"session": sessID,
 		"header":  ovhCBOR,
-	}, nil)
+	}, []string{"session"})
 }
 
 // IncompleteVoucherHeader gets an incomplete (missing HMAC) voucher header
